@@ -11,6 +11,7 @@ code -> spec  random catalogs (uniform / clustered, on tile boundaries) x thresh
 """
 import math
 import random
+from fractions import Fraction
 
 from vh.core import MachineryError, guarded, Raised
 
@@ -61,6 +62,34 @@ def run(chk, replay=None):
     def digits(qk):
         return [int(ch) for ch in qk]
 
+    R2 = 6371.0 ** 2
+
+    def area_problem(g):
+        """every cell's area against the closed formula of its own tile R^2 * dlon * (sin(north) - sin(south)); a grid
+        that tiles the whole square must add up to the latitude band"""
+        a = guarded(g.get_cell_area)
+        chk.count()
+        if isinstance(a, Raised):
+            return {'why': 'get_cell_area raised', 'err': repr(a)}
+        a = [float(x) for x in numpy.asarray(a).reshape(-1)]
+        if len(a) != len(g.quadkeys):
+            return {'why': 'one area per cell', 'got': len(a), 'cells': len(g.quadkeys)}
+        cover = Fraction(0)
+        for q, got in zip(g.quadkeys, a):
+            t = mercantile.quadkey_to_tile(str(q))
+            n = 2 ** t.z
+            w, e = t.x / n * 360.0 - 180.0, (t.x + 1) / n * 360.0 - 180.0
+            s_, n_ = lat_of(n - (t.y + 1), n), lat_of(n - t.y, n)
+            want = R2 * math.radians(e - w) * (math.sin(math.radians(n_)) - math.sin(math.radians(s_)))
+            cover += Fraction(1, 4 ** t.z)
+            if not abs(got - want) <= 1e-9 * want:
+                return {'why': 'cell area', 'quadkey': str(q), 'got': got, 'expected': want}
+        if cover == 1:
+            band = 2 * math.pi * R2 * 2 * math.sin(math.radians(lat_of(1, 1)))
+            if not abs(sum(a) - band) <= 1e-9 * band:
+                return {'why': 'areas do not add up to the latitude band', 'got': sum(a), 'expected': band}
+        return None
+
     # ---------------------------------------------------------------- model checking + gen
     res = chk.tlc('Quadtree', 'MC_Quadtree.cfg', timeout=1800)
     chk.require_coverage(res, ['Next'])
@@ -83,6 +112,9 @@ def run(chk, replay=None):
         if sorted(got) != sorted(case['grid']):
             return {'why': 'quadkeys', 'got': [''.join(map(str, q)) for q in got][:20],
                     'expected': [''.join(map(str, q)) for q in case['grid']][:20]}
+        ap = area_problem(g)
+        if ap:
+            return ap
         index = {tuple(q): i for i, q in enumerate(got)}
         for x in range(side + 1):
             for y in range(side + 1):
@@ -133,7 +165,6 @@ def run(chk, replay=None):
 
     chk.log('gen replay done')
     # ---------------------------------------------------------------- single resolution, areas
-    R2 = 6371.0 ** 2
     for z in range(1, 7 if quick else 9):
         g = guarded(QuadtreeGrid2D.from_single_resolution, z)
         chk.count()
@@ -203,6 +234,9 @@ def run(chk, replay=None):
         if isinstance(g, Raised):
             chk.violation('quadkeys:raised', {'set': name, 'err': repr(g)})
             continue
+        ap = area_problem(g)
+        if ap:
+            chk.violation('quadkeys:%s' % ap['why'], dict(ap, set=name))
         tiles = {q: mercantile.quadkey_to_tile(q) for q in qks}
         for _ in range(200 if quick else 1500):
             q = rng.choice(qks)
@@ -245,6 +279,9 @@ def run(chk, replay=None):
         if isinstance(g, Raised):
             chk.violation('trace:from_catalog raised', {'n': n_ev, 'thr': thr, 'zoom': zoom, 'err': repr(g)})
             continue
+        ap = area_problem(g)
+        if ap:
+            chk.violation('trace:%s' % ap['why'], dict(ap, n=n_ev, thr=thr, zoom=zoom))
         ev_abs = [[locate(lon, lons8), locate(lat, lats8)] for lon, lat in pts]
         lk = []
         for (lon, lat), a in list(zip(pts, ev_abs))[:40]:
